@@ -8,6 +8,7 @@ import (
 	"strconv"
 	"syscall"
 
+	"github.com/nspcc-dev/neofs-node/internal/verifhook"
 	"github.com/nspcc-dev/neofs-node/pkg/local_object_storage/blobstor/common"
 	oid "github.com/nspcc-dev/neofs-sdk-go/object/id"
 )
@@ -97,7 +98,12 @@ func (w *genericWriter) writeAndRename(tmpPath, p string, data []byte) error {
 		return fmt.Errorf("write data into file %q: %w", tmpPath, err)
 	}
 
+	verifhook.Point("fstree.generic.rename.before")
 	err = os.Rename(tmpPath, p)
+	if e := verifhook.Fault("fstree.generic.rename"); e != nil && err == nil {
+		err = e // injected after the real call: the object file is in place although the call is reported as failed
+	}
+	verifhook.Point("fstree.generic.rename.after")
 	if err != nil {
 		return fmt.Errorf("rename file %q->%q: %w", tmpPath, p, err)
 	}
@@ -108,16 +114,30 @@ func (w *genericWriter) writeAndRename(tmpPath, p string, data []byte) error {
 // writeFile writes data to a file with path p.
 // The code is copied from `os.WriteFile` with minor corrections for flags.
 func (w *genericWriter) writeFile(p string, data []byte) error {
+	verifhook.Point("fstree.generic.open.before")
 	f, err := os.OpenFile(p, w.flags, w.perm)
+	if e := verifhook.Fault("fstree.generic.open"); e != nil && err == nil {
+		_ = f.Close() // injected failure: the call is reported as failed, its effect is undone
+		_ = os.Remove(p)
+		err = &fs.PathError{Op: "open", Path: p, Err: e}
+	}
 	if err != nil {
 		return fmt.Errorf("open file with flags %d: %w", w.flags, err)
 	}
+	verifhook.Point("fstree.generic.write.before")
 	_, err = f.Write(data)
+	if e := verifhook.Fault("fstree.generic.write"); e != nil && err == nil {
+		err = &fs.PathError{Op: "write", Path: p, Err: e} // injected after the real call: the bytes are in the temporary file
+	}
 	if err != nil {
 		_ = f.Close()
 		return fmt.Errorf("write data to the file: %w", err)
 	}
+	verifhook.Point("fstree.generic.close.before")
 	err = f.Close()
+	if e := verifhook.Fault("fstree.generic.close"); e != nil && err == nil {
+		err = &fs.PathError{Op: "close", Path: p, Err: e}
+	}
 	if err != nil {
 		return fmt.Errorf("close file: %w", err)
 	}
